@@ -97,8 +97,8 @@ func (sh *shard) Flush(ctx context.Context, shardN int, prev cid.Cid) (cid.Cid, 
 	pin.Type = api.ShardType
 	pin.Reference = &prev
 	pin.MaxDepth = 1
-	pin.ShardSize = sh.Size()           // use current size, not the limit
-	if len(nodes) > len(sh.dagNode)+1 { // using an indirect graph
+	pin.ShardSize = sh.Size() // use current size, not the limit
+	if len(nodes) > 1 {       // using an indirect graph
 		pin.MaxDepth = 2
 	}
 
